@@ -492,6 +492,8 @@ def configs_for(prop, tier):
                 ("asan", "e1", ["--mode", "a", "--fault", "starve", "--maxthreads", mt, "--maxviol", "1000000"], 5 * t, "c13_starve_asan"),
                 ("tsan", "e1", ["--mode", "a", "--fault", "none", "--maxthreads", mt, "--mix", "api", "--cold", "2"], 8 * t, "c13_cold_tsan"),
                 ("asan", "e1", ["--mode", "a", "--fault", "none", "--maxthreads", mt, "--mix", "api", "--cold", "2"], 5 * t, "c13_cold_asan"),
+                ("plain", "e2", ["--prop", "C13"], 8 * t, "c13_limit_enum_plain"),
+                ("asan", "e2", ["--prop", "C13"], 6 * t, "c13_limit_enum_asan"),
                 ("tsan", "e1", ["--mode", "b", "--maxthreads", mt], 8 * t, "c13_b_tsan"),
                 ("asan", "e1", ["--mode", "b", "--maxthreads", mt], 8 * t, "c13_b_asan")]
     raise SystemExit(f"no configuration for {prop}")
@@ -522,8 +524,11 @@ RULE = {
     "C13": "seeded plans of 1-6 real threads under the serialising scheduler (uniform, PCT, herd-at-CAS, winner-stall, round "
            "robin), racing the first use of the Unicode tables, the global limit and (cold-process batch: worker processes replaced "
            "after two runs) the first use of the rest of the API (URLPattern, C API, search params); faults: table allocation "
-           "failure, bounded stall, spin-clock jump. Non-trivial: the initialisation protocol ran (mode a) or limit stores "
-           "interleaved with calls (mode b); distinct = distinct (operations, shared-state schedule signature) pairs.",
+           "failure, bounded stall, spin-clock jump. Sub-batch limit_enum (engine e2, sequential): for seeded histories the position "
+           "of ONE concurrent limit store is enumerated - every ordered pair of a boundary set of limit values x every gap between "
+           "two limit reads of the call (counter limit_store_positions_enumerated) - and the result must be the one under either "
+           "value. Non-trivial: the initialisation protocol ran (mode a) or limit stores interleaved with calls (mode b, "
+           "limit_enum); distinct = distinct (operations, shared-state schedule signature) pairs.",
     "C18": "the same seeds executed in each supported x86-64 build; per-run observation hashes must agree. Non-trivial: all runs; "
            "distinct = distinct op text.",
 }
@@ -707,7 +712,7 @@ def run_c18(tier, seed):
     outdir = os.path.join(BUILD, "out", "C18")
     shutil.rmtree(outdir, ignore_errors=True)
     os.makedirs(outdir, exist_ok=True)
-    per_worker = 50000 if tier == "quick" else 1500000
+    per_worker = 150000 if tier == "quick" else 3000000
     workers = 3
     res = {}
     with ThreadPoolExecutor(max_workers=len(C18_VARIANTS)) as ex:
